@@ -508,6 +508,32 @@ func (fr *Frame) localByName(st *State, name string) (TVal, bool) {
 		return TVal{}, false
 	}
 	if len(found) > 1 {
+		// a parameter shadowed by an inner declaration: the name denotes the parameter
+		for _, b := range fr.fn.Blocks {
+			for _, ins := range b.Instrs {
+				st0, ok := ins.(*ssa.Store)
+				if !ok {
+					continue
+				}
+				p, isParam := st0.Val.(*ssa.Parameter)
+				a, isAlloc := st0.Addr.(*ssa.Alloc)
+				if !isParam || !isAlloc || p.Name() != name || a.Comment != name {
+					continue
+				}
+				if !a.Heap {
+					if v, ok := st.cells[a]; ok {
+						if t, ok2 := ex.valTermOK(v); ok2 {
+							return TVal{t, v.typ}, true
+						}
+					}
+				} else if pv, ok := fr.env[a]; ok && pv.place != nil {
+					v := ex.load(st, pv.place)
+					return TVal{v.t, v.typ}, true
+				}
+			}
+		}
+	}
+	if len(found) > 1 {
 		for _, f := range found[1:] {
 			if f.t != found[0].t {
 				trFail("local %s is ambiguous in %s (shadowed declarations)", name, fr.fn.Name())
